@@ -104,7 +104,15 @@ fn check_for_boolean_directive(
 
     let mut first_line = true;
 
-    for line in code[..subject_pos + 1].lines().rev()
+    /* Include the statement's first character, which may be longer than one byte, so that the
+     * line the statement starts on is never empty.
+     */
+    let subject_end = code[subject_pos..]
+        .chars()
+        .next()
+        .map_or(subject_pos, |c| subject_pos + c.len_utf8());
+
+    for line in code[..subject_end].lines().rev()
     {
         if first_line
         {
